@@ -1127,6 +1127,21 @@ fn c06(ix: &Ix, f: &mut Findings) {
                             if sum.panic.is_none() && sum.killed != Some(true) {
                                 f.v("C06.killed", Some(a), format!("actor {a}: ended by kill() but the result reports killed={:?}", sum.killed));
                             }
+                            // the cleanup a kill starts is run once and to its end: further kill() calls - also ones that arrive
+                            // while on_stop(killed=true) is suspended - neither abandon nor restart it
+                            if !sum.cancelled {
+                                f.o("C06.cleanup_once");
+                                let finished = x.stop_exit.len();
+                                let stop_panicked = x.stop_exit.iter().any(|s| s.1 == Out::Panic);
+                                if x.stop_enter.len() != 1 || (finished != 1 && !stop_panicked) {
+                                    let later_kills = x.kills.iter().filter(|op| ix.ops[*op].s > *c).count();
+                                    f.v(
+                                        "C06.cleanup_once",
+                                        Some(a),
+                                        format!("actor {a}: ended by kill(): on_stop was entered {} time(s) (killed flags {:?}) and finished {} time(s); {later_kills} further kill() call(s) were made after on_stop(killed=true) had begun - the cleanup must run once and to completion", x.stop_enter.len(), x.stop_enter.iter().map(|s| s.1).collect::<Vec<_>>(), finished),
+                                    );
+                                }
+                            }
                         }
                     }
                     // nothing but the hook in progress (and at most one handler) between the kill and on_stop: in particular on_run makes no progress
